@@ -19,10 +19,12 @@ echo "build default: $b1"; echo "build tracing: $b2"
 suite=$(cargo test --offline --no-fail-fast 2>&1 | grep "test result" | awk '{p+=$4; f+=$6} END {print p" passed "f" failed"}')
 echo "suite with change: $suite"
 cp "$D" tests/zz_demo.rs
-with=$(cargo test --offline --test zz_demo 2>&1 | grep "test result" | tail -1)
+# seeds aimed at C20 only show with the tracing feature on
+DF=""; case "$SID" in *C20-*) DF="--features tracing";; esac
+with=$(cargo test --offline $DF --test zz_demo 2>&1 | grep "test result" | tail -1)
 echo "demo with change: $with"
 git checkout -q -- src
-without=$(cargo test --offline --test zz_demo 2>&1 | grep "test result" | tail -1)
+without=$(cargo test --offline $DF --test zz_demo 2>&1 | grep "test result" | tail -1)
 echo "demo without change: $without"
 rm -f tests/zz_demo.rs
 # now the checks against /repo (CONFIRM_ONLY=1: leave them to tools/recheck_seed.py, so that
